@@ -341,7 +341,7 @@ func NewMux(opts ...MuxOption) (*Mux, error) {
 			muxOpts.compressors[k] = v
 		}
 	}
-	for k := range muxOpts.codecs {
+	for k := range muxOpts.compressors {
 		muxOpts.encodingTypeOffers = append(muxOpts.encodingTypeOffers, k)
 	}
 	sort.Strings(muxOpts.encodingTypeOffers)
